@@ -1,6 +1,7 @@
 // C11: the four exported NNLS solvers on the systems of spec/MC_Nnls.tla (exact minimiser known) and on random systems.
 //   nnls_driver small <systems.ndjson> <seed> <out.ndjson>
 //   nnls_driver random <count> <seed> <out.ndjson>
+//   nnls_driver trace <systems.ndjson> <stride> <offset> <trace.ndjson>    per-phase trace of nnls_normal_block3 (hook) for Trace_Block3
 #include "json.h"
 #include <cholmod.h>
 #include <fstream>
@@ -97,10 +98,40 @@ static void emit(FILE* out, const char* kind, int which, int n, const std::vecto
 	}
 	w.emit(out);
 }
+// ---- the verification hook of nnls_normal_block3 (src/fitter/nnls.c, guard PHOTOSPLINE_VERIF): one line per phase
+static FILE* g_trace = nullptr;
+static long q16(double v) { double r = std::floor(v * 65536.0 + 0.5); if (!(std::fabs(r) < 2e9)) return r > 0 ? 2000000000L : -2000000000L; return (long)r; }
+extern "C" void photospline_verif_block3(const char* phase, int iter, int nvar, const long* F, long nF, const long* H1, long nH1, const long* H2, long nH2,
+                                         const double* x, const double* y, int solved) {
+	if (!g_trace) return;
+	auto set = [&](const char* k, const long* a, long n) { fprintf(g_trace, ",\"%s\":[", k); for (long i = 0; i < n; i++) fprintf(g_trace, "%s%ld", i ? "," : "", a[i] + 1); fputc(']', g_trace); };
+	fprintf(g_trace, "{\"e\":\"%s\",\"iter\":%d", phase, iter); set("F", F, nF); set("H1", H1, nH1); set("H2", H2, nH2);
+	fprintf(g_trace, ",\"x\":["); for (int i = 0; i < nvar; i++) fprintf(g_trace, "%s%ld", i ? "," : "", q16(x[i]));
+	// multipliers as sign classes with the solver's own tolerance
+	double tol = nvar * 2.220446049250313e-16 * 1e5;
+	fprintf(g_trace, "],\"y\":["); for (int i = 0; i < nvar; i++) fprintf(g_trace, "%s%d", i ? "," : "", y[i] < -tol ? -1 : (y[i] > tol ? 1 : 0));
+	fprintf(g_trace, "],\"solved\":%s}\n", solved ? "true" : "false");
+}
+
 int main(int argc, char** argv) {
 	if (argc < 5) return 2; std::string mode = argv[1]; cholmod_l_start(&cc); setenv("OMP_NUM_THREADS", "2", 0);
 	signal(SIGALRM, [](int) { fprintf(stderr, "HANG in nnls solver %s on %s\n", g_cur, g_curtag.c_str()); _exit(14); });
-	RngL rng(strtoull(argv[3], 0, 10)); FILE* out = fopen(argv[4], "w"); long cnt = 0;
+	RngL rng(strtoull(argv[3], 0, 10)); FILE* out = mode == "trace" ? nullptr : fopen(argv[4], "w"); long cnt = 0;
+	if (mode == "trace") {
+		if (argc < 6) return 2;
+		// argv: trace <systems> <stride> <offset> <trace file>
+		std::ifstream f(argv[2]); long stride = atol(argv[3]), offset = atol(argv[4]); g_trace = fopen(argv[5], "w"); std::string line; long k = 0, done = 0;
+		while (std::getline(f, line)) {
+			if (line.empty()) continue; if ((k++ % stride) != offset) continue;
+			JV c = jparse(line); int n = (int)c["n"].integer(); std::vector<double> A(n * n), b(n), x;
+			for (int i = 0; i < n; i++) { b[i] = (double)c["b"].a[i].integer(); for (int j = 0; j < n; j++) A[i * n + j] = (double)c["A"].a[i].a[j].integer(); }
+			fprintf(g_trace, "{\"e\":\"start\",\"n\":%d,\"A\":%s,\"b\":%s}\n", n, line.substr(line.find("\"A\":") + 4, line.find("]]") + 2 - line.find("\"A\":") - 4).c_str(), line.substr(line.find("\"b\":") + 4, line.find("]", line.find("\"b\":")) + 1 - line.find("\"b\":") - 4).c_str());
+			bool ok = solve(0, A, b, n, x);
+			fprintf(g_trace, "{\"e\":\"end\",\"ok\":%s,\"x\":[", ok ? "true" : "false"); for (int i = 0; ok && i < n; i++) fprintf(g_trace, "%s%ld", i ? "," : "", q16(x[i])); fprintf(g_trace, "]}\n");
+			done++;
+		}
+		fclose(g_trace); g_trace = nullptr; printf("{\"traced\":%ld}\n", done); return 0;
+	}
 	if (mode == "small") {
 		std::ifstream f(argv[2]); std::string line;
 		while (std::getline(f, line)) {
